@@ -448,6 +448,23 @@ func (fx *FX) execBinOp(st *State, x *ssa.BinOp) {
 		}
 		fx.intBinOp(st, x, av.T, bv.T)
 		return
+	case VStruct, VArr:
+		// equality of comparable struct/array values: all leaves equal (strings by content, pointers by identity,
+		// interfaces by dynamic type and box as above); blank fields are not expected in the units
+		if x.Op == token.EQL || x.Op == token.NEQ {
+			at, bt := flatten(a), flatten(b)
+			if len(at) == len(bt) && len(at) > 0 {
+				e := eq(at[0], bt[0])
+				for i := 1; i < len(at); i++ {
+					e = and(e, eq(at[i], bt[i]))
+				}
+				if x.Op == token.NEQ {
+					e = not(e)
+				}
+				fx.set(x, VBool{e})
+				return
+			}
+		}
 	}
 	fx.unsupported(st, x)
 }
